@@ -9,6 +9,7 @@ import SfsModel.Model.XR
 import SfsModel.Driver.Proto
 import SfsModel.Driver.Create
 import SfsModel.Driver.Io
+import SfsModel.Driver.Stat
 open Sfs Sfs.Drv
 
 def half : XR := .fin (1 / 2)
@@ -129,6 +130,7 @@ def handle (op : String) (a : List String) (impl : String) : Option Verdict :=
     | [p, "cli"] => handleCli a impl p
     | ["c12", "same"] => handleSame a impl
     | ["io", _] => handleIo op a impl
+    | ["st", _] => handleStat op a impl
     | _ => none
 
 def processLine (line : String) : String :=
